@@ -513,3 +513,140 @@ Proof.
   destruct (nodes s2 !! nid) as [n|]; [destruct (node_add eps n p2) as [[? ?]|e]; [contradiction|]|];
     simpl; intros Hinv; (split; [reflexivity|]); apply Hgoal; exact Hinv.
 Qed.
+
+(* ---------- 5b. Evict then Discard ---------- *)
+
+Definition nv4 (n : node) := if n_has_node n then None else Some (n_idle n, n_used n, n_releasing n, n_pipelined n).
+
+Lemma nv4_remove n i : nv4 (node_remove n i) = nv4 n.
+Proof.
+  unfold node_remove, nv4. destruct (n_tasks n !! i) as [c|]; [|reflexivity].
+  destruct (n_has_node n) eqn:Hn; simpl; [destruct (t_status c); simpl; rewrite Hn; reflexivity|rewrite Hn; reflexivity].
+Qed.
+
+Lemma nv4_add eps n p n' q : node_add eps n p = inl (n', q) -> nv4 n' = nv4 n.
+Proof.
+  unfold node_add, nv4. cbv zeta. case_bool_decide; [discriminate|]. case_bool_decide; [discriminate|].
+  destruct (n_has_node n) eqn:Hn; simpl.
+  - destruct (t_status p); try (intros [= <- _]; simpl; rewrite Hn; reflexivity).
+    destruct (less_equal_names _ _ _ _); [|discriminate]. intros [= <- _]; simpl; rewrite Hn; reflexivity.
+  - intros [= <- _]; simpl; rewrite Hn; reflexivity.
+Qed.
+
+Lemma set_node_id p x : t_node p = x -> set_node p x = p.
+Proof. destruct p; simpl; intros ->; reflexivity. Qed.
+
+Lemma node_update_ok eps n p :
+  t_node p = Some (n_id n) -> t_status p <> Binding ->
+  exists n', node_update eps n p = inl (n', p) /\ n_id n' = n_id n /\
+    nview n' = (n_has_node n, n_alloc n, <[t_id p := hview p]> (hview <$> n_tasks n), nv4 n).
+Proof.
+  intros Hnode Hst. destruct (node_remove_fields n (t_id p)) as (Hid & Hhas & Hal & Hts).
+  assert (Hex : exists n' q, node_update eps n p = inl (n', q)).
+  { unfold node_update, node_add. cbv zeta. rewrite Hid, Hts, lookup_delete.
+    rewrite bool_decide_eq_false_2 by (intros [_ H]; apply H; exact Hnode).
+    rewrite bool_decide_eq_false_2 by (intros [? ?]; discriminate).
+    destruct (negb _); [eauto|]. destruct (t_status p); eauto. contradiction. }
+  destruct Hex as (n' & q & Hu). pose proof Hu as Hu'. unfold node_update in Hu'.
+  destruct (node_add_spec _ _ _ _ _ Hu') as (Hq & _ & Ht' & Hid' & Hhas' & Hal' & _).
+  rewrite Hid in Hq. rewrite (set_node_id p _ Hnode) in Hq. subst q.
+  exists n'. split; [exact Hu|]. split; [congruence|].
+  change (nview n') with (n_has_node n', n_alloc n', hview <$> n_tasks n', nv4 n').
+  rewrite Hhas', Hal', Ht', Hhas, Hal, Hts, Hid, (set_node_id p _ Hnode), (nv4_add _ _ _ _ _ Hu'), nv4_remove.
+  rewrite fmap_insert, fmap_delete, insert_delete_insert. reflexivity.
+Qed.
+
+Lemma ssn_node_update_ok eps s p nid n :
+  t_node p = Some nid -> nodes s !! nid = Some n -> n_id n = nid -> t_status p <> Binding ->
+  exists n', ssn_node_update eps s p = (put_task (upd_nodes s (<[nid := n']> (nodes s))) p, p, false) /\
+    n_id n' = nid /\
+    nview n' = (n_has_node n, n_alloc n, <[t_id p := hview p]> (hview <$> n_tasks n), nv4 n).
+Proof.
+  intros Hnode Hn Hid Hst. rewrite <- Hid in Hnode.
+  destruct (node_update_ok eps n p Hnode Hst) as (n' & Hu & Hid' & Hv).
+  exists n'. unfold ssn_node_update. rewrite Hnode, Hid, Hn, Hu. split; [reflexivity|]. split; [congruence|exact Hv].
+Qed.
+
+(* the call sites' precondition of Evict: a Running or Bound task on its node (the node's copy in
+   step with the task), whose request the handler's share covers *)
+Definition evictable (s : sess) (p : task) (nid : positive) : Prop :=
+  heap s !! t_id p = Some p /\ (t_status p = Running \/ t_status p = Bound) /\ t_node p = Some nid /\
+  jknown s p /\
+  (exists n c, nodes s !! nid = Some n /\ n_tasks n !! t_id p = Some c /\ hview c = hview p) /\
+  covers (default empty_res (hshare s !! t_job p)) (t_req p).
+
+Lemma share_sub_add sh k r :
+  covers (default empty_res (sh !! k)) r ->
+  share_same sh (<[k := add (sub (default empty_res (sh !! k)) r) r]> sh).
+Proof.
+  intros Hc k'. destruct (decide (k' = k)) as [->|Hne].
+  - rewrite lookup_insert. simpl. apply res_eqv_amt. intros d. rewrite amt_add, amt_sub_covers by exact Hc. lia.
+  - rewrite lookup_insert_ne by congruence. apply res_eqv_refl.
+Qed.
+
+Theorem discard_restores_evict eps s sid p nid :
+  sess_ok s -> evictable s p nid -> default [] (stmts s !! sid) = [] ->
+  let r := stmt_evict_with eps s sid p None in
+  snd r = ROk /\ sess_eqv s (stmt_discard eps (fst r) sid) /\
+  binds (stmt_discard eps (fst r) sid) = binds s /\ evicts (stmt_discard eps (fst r) sid) = evicts s.
+Proof.
+  intros Hok (Hl & Hstp & Hnd & Hjk & (n & c & Hn & Hc & Hcv) & Hcov) Hemp. cbv zeta.
+  pose proof (sess_ok_step eps s (OEvict sid (t_id p)) Hok) as Hok1.
+  simpl in Hok1. unfold stmt_evict, with_task in Hok1. rewrite Hl in Hok1.
+  pose proof (sess_ok_step eps _ (ODiscard sid) Hok1) as Hok2. simpl in Hok2.
+  assert (Hlg : lg (stmt_discard eps (fst (stmt_evict_with eps s sid p None)) sid) = lg s).
+  { pose proof (undecided_invisible eps (fst (stmt_evict_with eps s sid p None)) (ODiscard sid) eq_refl) as [H1 H2].
+    transitivity (lg (fst (stmt_evict_with eps s sid p None))); [|apply lg_evict_with].
+    unfold lg. f_equal; [exact H1|exact H2]. }
+  revert Hok2 Hlg. clear Hok1.
+  destruct Hok as (Hinv & Hw & Hsv). pose proof Hinv as (_ & _ & Hnodes). destruct (Hnodes _ _ Hn) as [Hnid _].
+  unfold stmt_evict_with.
+  destruct (update_sk s p Releasing Hjk Hl) as (f & s1 & -> & Hf & Hh1 & Hjv1 & Hjk1 & Ho1).
+  apply others_inv in Ho1 as (Hn1 & Hs1 & _ & _ & _ & _ & _ & _ & Hst1 & _ & _).
+  set (p1 := if f then set_status p Releasing else p).
+  assert (Hp1 : t_id p1 = t_id p /\ t_job p1 = t_job p /\ t_req p1 = t_req p /\ t_sub p1 = t_sub p /\
+                t_node p1 = Some nid /\ t_status p1 <> Binding).
+  { unfold p1. destruct f; simpl; repeat split; try assumption; [discriminate|]. destruct Hstp as [-> | ->]; discriminate. }
+  destruct Hp1 as (Hid1 & Hjob1 & Hreq1 & Hsub1 & Hnode1 & Hnb1).
+  assert (Hn1' : nodes s1 !! nid = Some n) by (rewrite Hn1; exact Hn).
+  destruct (ssn_node_update_ok eps s1 p1 nid n Hnode1 Hn1' Hnid Hnb1) as (n1 & -> & Hnid1 & Hv1).
+  cbv beta iota zeta. cbn [fst snd]. change (default (t_status p) None) with (t_status p).
+  intros Hok2 Hlg. split; [reflexivity|]. revert Hok2 Hlg.
+  set (s3 := push_op (h_dealloc (put_task (upd_nodes s1 (<[nid:=n1]> (nodes s1))) p1) p1) sid KEvict (t_id p) (t_status p)).
+  assert (Hops : default [] (stmts s3 !! sid) = [mkOp KEvict (t_id p) (t_status p)]).
+  { unfold s3, push_op. simpl. rewrite lookup_insert. simpl. rewrite Hst1, Hemp. reflexivity. }
+  rewrite (discard_single eps s3 sid _ Hops). cbv zeta.
+  assert (Hl3 : heap s3 !! t_id p = Some p1) by (simpl; rewrite <- Hid1; apply lookup_insert).
+  unfold undo_op. cbn [op_task op_kind op_prev]. rewrite Hl3. unfold unevict_with.
+  assert (Hrs : restore_status (t_status p) = t_status p) by (destruct Hstp as [-> | ->]; reflexivity).
+  rewrite Hrs.
+  assert (Hl3' : heap s3 !! t_id p1 = Some p1) by (rewrite Hid1; exact Hl3).
+  assert (Hjk3 : jknown s3 p1) by (eapply (jknown_fields s1 s3 p p1); auto).
+  destruct (update_sk s3 p1 (t_status p) Hjk3 Hl3') as (f' & s4 & -> & Hf' & Hh4 & Hjv4 & _ & Ho4).
+  assert (Hff : f' = f).
+  { rewrite Hf', Hf, Hjob1. change (jobs s3) with (jobs s1). symmetry. apply found_jv. symmetry. exact Hjv1. }
+  clear Hf'. subst f'.
+  apply others_inv in Ho4 as (Hn4 & Hs4 & _ & _ & _ & _ & _ & _ & _ & _ & _).
+  set (p4 := if f then set_status p1 (t_status p) else p1).
+  assert (Hp4 : t_id p4 = t_id p /\ t_job p4 = t_job p /\ t_req p4 = t_req p /\ t_node p4 = Some nid /\
+                t_status p4 <> Binding /\ hview p4 = hview p).
+  { unfold p4, p1. destruct f; simpl; repeat split; try assumption; unfold hview; simpl;
+      try (destruct Hstp as [-> | ->]; discriminate); rewrite ?Hnd; reflexivity. }
+  destruct Hp4 as (Hid4 & Hjob4 & Hreq4 & Hnode4 & Hnb4 & Hv4).
+  assert (Hn4' : nodes s4 !! nid = Some n1) by (rewrite Hn4; simpl; apply lookup_insert).
+  destruct (ssn_node_update_ok eps s4 p4 nid n1 Hnode4 Hn4' Hnid1 Hnb4) as (n2 & -> & Hnid2 & Hv2).
+  cbv beta iota zeta. unfold h_alloc. cbn [fst snd].
+  intros Hok2 Hlg. split; [|unfold lg in Hlg; inversion Hlg; auto].
+  apply sk_sess_eqv; [exact Hinv|exact (proj1 Hok2)| | | |].
+  - unfold hv. simpl. rewrite Hh4. simpl. rewrite Hh1, Hid4, Hid1, !insert_insert, fmap_insert, Hv4.
+    symmetry. apply insert_id. rewrite lookup_fmap, Hl. reflexivity.
+  - change (jv s = jv s4). rewrite Hjv4. change (jv s = jv s1). congruence.
+  - unfold nv. simpl. rewrite Hn4. simpl. rewrite Hn1, !insert_insert, fmap_insert, Hv2.
+    symmetry. apply insert_id. rewrite lookup_fmap, Hn. simpl. f_equal.
+    assert (Hx : nview n1 = (n_has_node n, n_alloc n, <[t_id p1 := hview p1]> (hview <$> n_tasks n), nv4 n)) by exact Hv1.
+    inversion Hx as [[Ha Hb Hc' Hd]]. unfold nview at 1. fold (nv4 n). f_equal; [f_equal|]; try congruence.
+    + rewrite Hc', Hid4, Hid1, insert_insert, Hv4. symmetry. apply insert_id. rewrite lookup_fmap, Hc. simpl. congruence.
+    + symmetry. unfold nv4 at 1. exact Hd.
+  - simpl. rewrite Hs4. simpl. rewrite Hs1, Hjob4, Hjob1, Hreq4, Hreq1, lookup_insert, insert_insert. simpl.
+    apply share_sub_add. exact Hcov.
+Qed.
